@@ -70,8 +70,11 @@ Definition bind (job cls inst : settings) : bound :=
      b_env := dmerge (dmerge (env_of (s_env cls)) (env_of (s_env inst))) (env_of (s_env job)) |}.
 
 (* State: the fields of the one Job object shared by all instances (and subclasses) of a driver class,
-   and the drivers created so far (class-level attributes, instance attributes). *)
-Record bstate := mk_bstate { bs_shared : settings; bs_drivers : list (N * (settings * settings)) }.
+   the drivers created so far (class-level attributes, instance attributes), and the bound job objects the
+   caller is HOLDING (`h = d_i.job`, kept in a variable / handed to jobmap / captured by the lazily evaluated
+   generator of a vectorised job) with the settings each of them carries. *)
+Record bstate := mk_bstate {
+  bs_shared : settings; bs_drivers : list (N * (settings * settings)); bs_held : list (N * bound) }.
 
 Fixpoint nget {V} (i : N) (l : list (N * V)) : option V :=
   match l with [] => None | (j, v) :: r => if N.eqb i j then Some v else nget i r end.
@@ -81,47 +84,67 @@ Fixpoint nset {V} (i : N) (v : V) (l : list (N * V)) : list (N * V) :=
 Inductive bevent :=
 | BCreate (i : N) (cls inst : settings)   (* d_i = Cls_i(settings inst) *)
 | BSet (i : N) (inst : settings)          (* attributes of d_i reassigned *)
-| BUse (i : N)                            (* d_i.job            (then .prepare(...)) *)
-| BUseCls (i : N).                        (* type(d_i).job      (obj = None) *)
+| BUse (i : N)                            (* d_i.job.prepare(...)   : obtained and used at once *)
+| BUseCls (i : N)                         (* type(d_i).job.prepare(...)      (obj = None) *)
+| BGet (i h : N)                          (* h = d_i.job            : obtained and KEPT (nothing prepared yet) *)
+| BGetCls (i h : N)                       (* h = type(d_i).job *)
+| BPrep (h : N).                          (* h.prepare(...)         : a previously obtained bound job is used *)
 
 (* what the descriptor would hold if __get__ stored the resolved values in the shared object *)
 Definition absorb (b : bound) : settings :=
   mk_settings (b_exe b) (Some (b_nprocs b)) (Some (b_mem b)) (Some (b_env b)).
 
-(* sticky = false: __get__ as written (binds a copy).  sticky = true: the variant that assigns to the shared
-   descriptor (the code before the repair) -- kept only for the refutation lemma and the failing-input search. *)
-Definition bstep (sticky : bool) (st : bstate) (ev : bevent) : bstate * option bound :=
+(* MCopy  : __get__ as written -- every access binds a FRESH copy, so a bound job is a value fixed when obtained.
+   MSticky: the variant that assigns to the shared descriptor (the code before repair bb90cdd).
+   MShared: the variant that allocates ONE bound object per descriptor and refreshes it on every access: all the
+            objects handed out are the same object, so every access rewrites what every holder sees.
+   The last two are kept only for the refutation lemmas and the failing-input search. *)
+Inductive bmode := MCopy | MSticky | MShared.
+
+Definition after_access (m : bmode) (st : bstate) (b : bound) (keep : option N) : bstate :=
+  let shared := match m with MSticky => absorb b | _ => bs_shared st end in
+  let held := match m with MShared => map (fun hv => (fst hv, b)) (bs_held st) | _ => bs_held st end in
+  mk_bstate shared (bs_drivers st) (match keep with Some h => nset h b held | None => held end).
+
+Definition bstep (m : bmode) (st : bstate) (ev : bevent) : bstate * option bound :=
   match ev with
-  | BCreate i c s => (mk_bstate (bs_shared st) (nset i (c, s) (bs_drivers st)), None)
+  | BCreate i c s => (mk_bstate (bs_shared st) (nset i (c, s) (bs_drivers st)) (bs_held st), None)
   | BSet i s =>
       match nget i (bs_drivers st) with
-      | Some (c, _) => (mk_bstate (bs_shared st) (nset i (c, s) (bs_drivers st)), None)
+      | Some (c, _) => (mk_bstate (bs_shared st) (nset i (c, s) (bs_drivers st)) (bs_held st), None)
       | None => (st, None)
       end
   | BUse i =>
       match nget i (bs_drivers st) with
-      | Some (c, s) =>
-          let b := bind (bs_shared st) c s in
-          (if sticky then mk_bstate (absorb b) (bs_drivers st) else st, Some b)
+      | Some (c, s) => let b := bind (bs_shared st) c s in (after_access m st b None, Some b)
       | None => (st, None)
       end
   | BUseCls i =>
       match nget i (bs_drivers st) with
-      | Some (c, _) =>
-          let b := bind (bs_shared st) c no_settings in
-          (if sticky then mk_bstate (absorb b) (bs_drivers st) else st, Some b)
+      | Some (c, _) => let b := bind (bs_shared st) c no_settings in (after_access m st b None, Some b)
       | None => (st, None)
       end
+  | BGet i h =>      (* observed: the attributes of the object just obtained *)
+      match nget i (bs_drivers st) with
+      | Some (c, s) => let b := bind (bs_shared st) c s in (after_access m st b (Some h), Some b)
+      | None => (st, None)
+      end
+  | BGetCls i h =>
+      match nget i (bs_drivers st) with
+      | Some (c, _) => let b := bind (bs_shared st) c no_settings in (after_access m st b (Some h), Some b)
+      | None => (st, None)
+      end
+  | BPrep h => (st, nget h (bs_held st))     (* observed: what the prep function sees through the kept object *)
   end.
 
-Fixpoint brun (sticky : bool) (st : bstate) (evs : list bevent) : bstate * list (option bound) :=
+Fixpoint brun (m : bmode) (st : bstate) (evs : list bevent) : bstate * list (option bound) :=
   match evs with
   | [] => (st, [])
-  | ev :: r => let '(st1, o) := bstep sticky st ev in
-               let '(st2, os) := brun sticky st1 r in (st2, o :: os)
+  | ev :: r => let '(st1, o) := bstep m st ev in
+               let '(st2, os) := brun m st1 r in (st2, o :: os)
   end.
 
-Definition binit (decl : settings) : bstate := mk_bstate decl [].
+Definition binit (decl : settings) : bstate := mk_bstate decl [] [].
 
 (* ---- boolean equalities for the correspondence *)
 Definition opt_eqb {A} (e : A -> A -> bool) (a b : option A) : bool :=
@@ -139,7 +162,7 @@ Definition bound_eqb (a b : bound) : bool :=
 (* one correspondence case: declared settings of the Job, history, what every step showed on the real objects *)
 Record bcase := mk_bcase { bc_decl : settings; bc_events : list bevent; bc_obs : list (option bound) }.
 Definition check_bcase (c : bcase) : bool :=
-  list_eqb (opt_eqb bound_eqb) (snd (brun false (binit (bc_decl c)) (bc_events c))) (bc_obs c).
+  list_eqb (opt_eqb bound_eqb) (snd (brun MCopy (binit (bc_decl c)) (bc_events c))) (bc_obs c).
 
 (* ================================================================== (ii) run_local *)
 Record cmd_result := mk_res {
